@@ -209,10 +209,9 @@ func init() {
 		const id = "e3-client-identifier"
 		flips := []byte{0x01, 0x20, 0x80}
 		if thorough {
-			flips = nil
-			for v := 1; v < 256; v++ {
-				flips = append(flips, byte(v))
-			}
+			// every single-bit flip and the complement (each case costs a
+			// quarter of a second of waiting for the reconnect)
+			flips = []byte{0x01, 0x02, 0x04, 0x08, 0x10, 0x20, 0x40, 0x80, 0xff}
 		}
 		for _, alias := range []bool{true, false} {
 			probe := newPlainStore()
